@@ -64,7 +64,7 @@ func (node *Node) VerifDelayCheck(ctx context.Context) {
 		node.checkTxDelays(ctx)
 		close(done)
 	}()
-	time.Sleep(160 * time.Millisecond)
+	time.Sleep(320 * time.Millisecond)
 	node.lock.Lock()
 	node.stopping = true
 	node.lock.Unlock()
